@@ -148,11 +148,12 @@ def run(prog: Program, chk: Check):
     nset = 0
     for mod in prog.modules.values():
         for f in mod.functions.values():
-            for c in calls_in(f.node):
-                if is_method_call(c, ("set", "reset")) and (path_of(recv_of(c)) or "").split(".")[-1] == FLAG:
+            # every mention of the flag's writers, called here or handed on uncalled (`stack.callback(FLAG.reset, token)`)
+            for c in walk_local(f.node):
+                if isinstance(c, ast.Attribute) and c.attr in ("set", "reset") and (path_of(c.value) or "").split(".")[-1] == FLAG:
                     nset += 1
                     G.decide(mod is m and f.qual == "disable_message_validation", fkey(f, c), where(f, c), "flag written by disable_message_validation",
-                             f"{FLAG}.{c.func.attr}() called in {f.key}")
+                             f"{FLAG}.{c.attr} used in {f.key}")
     if nset < 2:
         raise AnalysisError("anchor vanished: _VALIDATION_ENABLED.set/reset")
     dflt = m.assigns.get(FLAG)
@@ -172,11 +173,33 @@ def run(prog: Program, chk: Check):
     after_set = flow.reach(dg, [n.id for n in sets])
     y_after = [n for n in yields if n.id in after_set]
     esc = flow.must_follow(dg, y_after, resets, exits=("exit", "raise"), from_exc_of_A=True)
+    # second accepted idiom: `with ExitStack() as st:` ... `st.callback(FLAG.reset, token)` registered on every path from the set
+    # to the yield, the yield inside that with block: the stack runs the callback however the block is left
+    regs = []
+    stacks = {}
+    for w in walk_local(dm.node):
+        if isinstance(w, ast.With):
+            for it in w.items:
+                if isinstance(it.context_expr, ast.Call) and (path_of(it.context_expr.func) or "").split(".")[-1] == "ExitStack" and isinstance(it.optional_vars, ast.Name):
+                    stacks[it.optional_vars.id] = w
+    for n in dg.nodes:
+        for c in node_calls(n):
+            if is_method_call(c, "callback") and path_of(recv_of(c)) in stacks and len(c.args) == 2 and isinstance(c.args[0], ast.Attribute) \
+                    and c.args[0].attr == "reset" and path_of(c.args[0].value) == FLAG:
+                regs.append((n, c, stacks[path_of(recv_of(c))]))
+    if regs and esc:
+        reg_ids = {n.id for n, _, _ in regs}
+        unreg = flow.reach(dg, [e.dst for s_ in sets for e in dg.succ[s_.id] if e.kind != "exc"], blocked=reg_ids, blocked_pass_exc=False)
+        inside = lambda y: any(y.ast in set(ast.walk(w)) for _, _, w in regs)
+        if all(inside(y) and (y.id not in unreg or y.id in reg_ids) for y in y_after):
+            esc = []
+        resets = resets + [n for n, _, _ in regs]
     Cr.decide(bool(y_after) and not esc, fkey(dm, "restore-on-every-exit"), where(dm), "reset(token) follows the yield on the normal and the exceptional continuation",
               "the flag is not restored when the with-body raises: `yield` can be left to " + ", ".join(sorted({x.kind for _, x in esc})) + " without _VALIDATION_ENABLED.reset(token)")
     # reset uses the token of the matching set
     tok_ok = all(isinstance(n.ast, ast.Assign) and isinstance(n.ast.targets[0], ast.Name) for n in sets) and \
-        all(any(is_method_call(c, "reset") and c.args and path_of(c.args[0]) == sets[0].ast.targets[0].id for c in node_calls(r)) for r in resets) if sets and resets else False
+        all(any((is_method_call(c, "reset") and c.args and path_of(c.args[0]) == sets[0].ast.targets[0].id) or
+                (is_method_call(c, "callback") and len(c.args) == 2 and path_of(c.args[1]) == sets[0].ast.targets[0].id) for c in node_calls(r)) for r in resets) if sets and resets else False
     Cr.decide(tok_ok, fkey(dm, "reset-own-token"), where(dm), "reset uses the token returned by the matching set (nesting safe)", "reset does not use the token of the matching set")
 
     # ---- Q every element is examined ---------------------------------------------------------------------
@@ -319,6 +342,51 @@ def run(prog: Program, chk: Check):
         D.decide(not bad and bool(paths), fkey(fi, "domain-at-exit"), where(fi), "every way of returning normally establishes the domain predicate",
                  f"{cname}.validate_one can return normally for a value outside the domain; facts on that path: "
                  + (", ".join(("" if pol else "not ") + norm(x) for x, pol in paths[bad[0]]) if bad else "no normal exit"))
+
+    # ---- L a sequence is folded into one scalar only when it has exactly one element ---------------------------------
+    # `int.from_bytes(value, ...)`, `value[0]`: ctypes would refuse a wrong-length sequence, the folded int it masks silently.
+    L = chk.rule("C09-L", "a setter folds the assigned sequence into a scalar (int.from_bytes / [0]) only where its length is known to be 1", 2,
+                 "bytes of any other length would be accepted and wrapped into the field instead of refused as a wrong-length sequence")
+    len1_classes = {c for c, t in DOMAIN.items() if "len({v}) == 1" in t}
+
+    def validate_one_owner(ci):
+        for k in prog.mro(ci):
+            fi_ = k.methods.get("validate_one")
+            if fi_ is not None and not is_stub(fi_.node):
+                return k.name
+        return None
+
+    nfold = 0
+    for f in setters:
+        g = C.build(f.node)
+        vparam = f.params()[-1]
+        gs = None
+        for n in g.nodes:
+            if n.ast is None:
+                continue
+            folds = []
+            for x in ast.walk(n.ast) if n.kind in ("stmt", "test", "return") else []:
+                if isinstance(x, ast.Call) and norm(x.func) == "int.from_bytes" and x.args and path_of(x.args[0]) == vparam:
+                    folds.append((x, "int.from_bytes"))
+                elif isinstance(x, ast.Subscript) and isinstance(x.ctx, ast.Load) and path_of(x.value) == vparam and isinstance(x.slice, ast.Constant) and x.slice.value in (0, -1):
+                    folds.append((x, f"[{x.slice.value}]"))
+            for x, how in folds:
+                nfold += 1
+                if gs is None:
+                    gs = flow.guard_states(g)
+                paths = gs.at_expr(n, x)
+                goal = guards.parse(f"len({vparam}) == 1")
+                bad = guards.any_path_implies(paths, goal)
+                ok = not bad
+                if bad and validate_one_owner(f.cls) in len1_classes:
+                    # validate_one of this class establishes len == 1 for bytes (C09-D): enough when it has completed on every path here
+                    v1 = [vn for vn in g.nodes for c in node_calls(vn) if is_method_call(c, "validate_one") and path_of(recv_of(c)) == "self" and c.args and path_of(c.args[0]) == vparam]
+                    ok = bool(v1) and not flow.must_precede(g, v1, [n])
+                L.decide(ok, fkey(f, f"fold:{how}"), where(f, x), f"`{norm(x)}` evaluated only with len({vparam}) == 1 established",
+                         f"{f.qual}: `{norm(x)}` folds the assigned sequence into one scalar on a path where its length is not known to be 1 "
+                         f"(bytes of another length are accepted and wrapped instead of refused)")
+    if nfold < 2:
+        raise AnalysisError(f"anchor vanished: sequence-to-scalar folds in the byte setters (found {nfold})")
 
     # ---- W bounds table ------------------------------------------------------------------------------------
     W = chk.rule("C09-W", "_min/_max of every integer validator equal the 2**bits bounds of its _size/_unsigned and its ctypes type", 9,
